@@ -9,6 +9,7 @@ import (
 	"fmt"
 	"os"
 	"path/filepath"
+	"strconv"
 	"strings"
 	"sync"
 	"time"
@@ -178,6 +179,10 @@ func NewRunHarness(rec *Recorder, cfg RunCfg) *RunHarness {
 			}
 			env.Quant[px+"pwm"] = qf
 			env.Set(px+"pwm", qf(rf.Pwm0))
+		}
+		if spec.HasRpm && spec.Kind == "cmd" {
+			// the plant of a command fan lives in its getrpm script (see BuildFanP)
+			must(os.WriteFile(filepath.Join(env.Dir, "cmd_"+rf.ID, "theta"), []byte(strconv.Itoa(rf.Theta)), 0644))
 		}
 		if spec.HasRpm && spec.Kind != "cmd" {
 			theta := rf.Theta
